@@ -15,10 +15,10 @@ fn w_check(b: &[u8]) {
 
 //@ tier: quick
 //@ funcs: write::yaml::must_quote, write::yaml::ns_plain_one_line
-//@ bounds: every ASCII string of length 1 (symbolic bytes < 0x80)
+//@ bounds: every ASCII string of length 1 (symbolic bytes < 0x80); unwind 30 = the 27 keywords of the table in one flat list + slack (the tree nests them 9 x 3)
 //@ asserts: W: core-schema keywords and number-like strings (optional sign, then a digit, a dot followed by a digit, or an infinity spelling) are quoted by the writer -- "+1", ".5", "-.5", "0x1f", "1e3" ...
 #[kani::proof]
-#[kani::unwind(24)]
+#[kani::unwind(30)]
 fn c14_w_numberlike_is_quoted_1() {
     let b: [u8; 1] = kani::any();
     let mut k = 0;
@@ -31,10 +31,10 @@ fn c14_w_numberlike_is_quoted_1() {
 
 //@ tier: quick
 //@ funcs: write::yaml::must_quote, write::yaml::ns_plain_one_line
-//@ bounds: every ASCII string of length 2 (symbolic bytes < 0x80)
+//@ bounds: every ASCII string of length 2 (symbolic bytes < 0x80); unwind 30 = the 27 keywords of the table in one flat list + slack (the tree nests them 9 x 3)
 //@ asserts: W: core-schema keywords and number-like strings (optional sign, then a digit, a dot followed by a digit, or an infinity spelling) are quoted by the writer -- "+1", ".5", "-.5", "0x1f", "1e3" ...
 #[kani::proof]
-#[kani::unwind(24)]
+#[kani::unwind(30)]
 fn c14_w_numberlike_is_quoted_2() {
     let b: [u8; 2] = kani::any();
     let mut k = 0;
@@ -47,10 +47,10 @@ fn c14_w_numberlike_is_quoted_2() {
 
 //@ tier: quick
 //@ funcs: write::yaml::must_quote, write::yaml::ns_plain_one_line
-//@ bounds: every ASCII string of length 3 (symbolic bytes < 0x80)
+//@ bounds: every ASCII string of length 3 (symbolic bytes < 0x80); unwind 30 = the 27 keywords of the table in one flat list + slack (the tree nests them 9 x 3)
 //@ asserts: W: core-schema keywords and number-like strings (optional sign, then a digit, a dot followed by a digit, or an infinity spelling) are quoted by the writer -- "+1", ".5", "-.5", "0x1f", "1e3" ...
 #[kani::proof]
-#[kani::unwind(24)]
+#[kani::unwind(30)]
 fn c14_w_numberlike_is_quoted_3() {
     let b: [u8; 3] = kani::any();
     let mut k = 0;
@@ -64,10 +64,10 @@ fn c14_w_numberlike_is_quoted_3() {
 //@ tier: thorough
 //@ timeout: 2400
 //@ funcs: write::yaml::must_quote, write::yaml::ns_plain_one_line
-//@ bounds: every ASCII string of length 4 (symbolic bytes < 0x80)
+//@ bounds: every ASCII string of length 4 (symbolic bytes < 0x80); unwind 30 = the 27 keywords of the table in one flat list + slack (the tree nests them 9 x 3)
 //@ asserts: W: core-schema keywords and number-like strings (optional sign, then a digit, a dot followed by a digit, or an infinity spelling) are quoted by the writer -- "+1", ".5", "-.5", "0x1f", "1e3" ...
 #[kani::proof]
-#[kani::unwind(24)]
+#[kani::unwind(30)]
 fn c14_w_numberlike_is_quoted_4() {
     let b: [u8; 4] = kani::any();
     let mut k = 0;
